@@ -281,6 +281,41 @@ def c11_2(ctx, R="C11.2"):
     masks = len(tested)
     ctx.ob(R, "sign-mask", masks == 2, "sign tests use mask 0x80 on two distinct bytes (buf[0] and buf[1])", found=sorted(tested))
     ctx.sample({"rule": R, "ok": [show(v) for _, v in vals], "neg": len(neg), "pos": len(pos)})
+    # canonical leading zero, per path: a value is returned for an atom whose first byte is zero only after a second byte was
+    # found with its top bit set.  Contradictory paths (the same byte tested both ways) are dropped; one lemma is used and named:
+    # L1 `len <= 1 and buf[0] == 0  =>  buf == [0]` (so `buf != [0]`, `!(len > 1)`, `buf[0] == 0` cannot hold together).
+    bad = []
+    n_lead = 0
+    try:
+        ps = P.enumerate_paths(b)
+    except P.Budget:
+        ps = None
+        ctx.missing(R, "leading-zero-paths", "path budget exceeded")
+    for ev, ex in ps or []:
+        r_ = P.ret_of(ev)
+        if ex[0] != "return" or r_ is None or "u64_from_bytes" not in str(r_):
+            continue
+        cs = [(strip_all(t), l) for t, l in U.canon_int_conds(P.conds(ev))]
+        if any(l[0] == "in" and not l[1] for t, l in cs):
+            continue
+        lead = [t for t, l in cs if t[0] == "idx" and t[2][0] == "c" and t[2][2] == 0 and l == ("in", (0,))]
+        if not lead:
+            continue
+        ne_single = any(t[0] == "call" and t[1].endswith("::eq") and len(t[2]) == 2 and strip_all(t[2][1])[0] == "cb" and
+                        tuple(strip_all(t[2][1])[2]) == (0,) and l == ("bool", False) for t, l in cs)
+        len_le1 = any(t[0] == "bin" and t[1] == "Gt" and "len" in str(t[2]) and strip_all(t[3])[0] == "c" and strip_all(t[3])[2] == 1 and
+                      l == ("bool", False) for t, l in cs)
+        if ne_single and len_le1:
+            continue        # L1
+        n_lead += 1
+        sign = [t for t, l in cs if t[0] == "bin" and t[1] == "BitAnd" and strip_all(t[3])[0] == "c" and strip_all(t[3])[2] == 0x80 and
+                strip_all(t[2]) != lead[0] and ((l[0] == "notin" and 0 in l[1]) or (l[0] == "in" and l[1] and 0 not in l[1]))]
+        if not sign:
+            bad.append([show(t)[:60] + " " + str(l) for t, l in cs if "idx" in str(t) or "len" in str(t)][:6])
+    if ps is not None:
+        ctx.ob(R, "leading-zero-paths", not bad and n_lead >= 1,
+               "every path returning a value for an atom with a zero first byte has seen a second byte with its top bit set "
+               "(%d such paths)" % n_lead, found=bad[:2] or None, where=b.fn.sp)
 
 
 # ------------------------------------------------------------------ C11.3
